@@ -959,7 +959,59 @@ def rule_cache_scope(repo):
     return r
 
 
-RULES = [rule_visitor, rule_funcfold, rule_overlap, rule_pairing, rule_netblk, rule_kahn, rule_greenlet, rule_novar_cycle, rule_cache_scope]
+def rule_methods(repo):
+    r = RuleResult('R-C02-methods', "method ordering constraints are propagated along the whole M(x)<M(y) chain and oriented predecessor-first")
+    m = repo.mod(GENDAG)
+    f = m.get_func('GenDAGPass._process_methods')
+    FN = 'GenDAGPass._process_methods'
+    loops = {}
+    for lp in ast.walk(f):
+        if isinstance(lp, ast.For) and isinstance(lp.iter, ast.Subscript) and norm(lp.iter.value) in ('pred', 'succ') and norm(lp.target) == 'v':
+            loops[norm(lp.iter.value)] = lp
+    if set(loops) != {'pred', 'succ'}:
+        raise AnalysisError(f"{FN}: predecessor / successor traversal loops not found")
+    for d, lp in loops.items():
+        u = norm(lp.iter.slice)
+        sign = -1 if d == 'pred' else 1
+        # direction guard of the whole loop
+        dg = [g for g in guards_of(lp) if g.kind == 'if' and norm(g.test) in ('w <= 0', 'w >= 0', 'w < 1', 'w > -1')]
+        want = ('w <= 0', 'w < 1') if d == 'pred' else ('w >= 0', 'w > -1')
+        ok = len(dg) == 1 and norm(dg[0].test) in want and dg[0].polarity
+        (r.ok if ok else r.bad)(m, FN, f"{d}[{u}] is explored only in direction {sign} (or undetermined)",
+                                *([] if ok else [f"the {d} traversal runs in the wrong search direction", lp.lineno]))
+        # continuation: push (v, sign) for every non-block neighbour not yet visited
+        pushes = [c for c in ast.walk(lp) if isinstance(c, ast.Call) and norm(c.func) == 'Q.append' and isinstance(c.args[0], ast.Tuple)
+                  and norm(c.args[0].elts[0]) == 'v']
+        cons = f"{d}: continue the search at every neighbouring method: Q.append((v, {sign}))"
+        if len(pushes) != 1 or norm(pushes[0].args[0].elts[1]) != str(sign):
+            r.bad(m, FN, cons, "the search is not continued in the same direction at the neighbouring method", lp.lineno)
+        else:
+            gs = [g for g in guards_of(pushes[0]) if g.kind in ('if', 'exit') and any(x is g.node for x in ast.walk(lp))]
+            allowed = {('v in all_upblks', False), (f"(v, {sign}) not in visited", True), (f"(v, {sign}) in visited", False)}
+            extra = [(norm(g.test), g.polarity) for g in gs if (norm(g.test), g.polarity) not in allowed]
+            if extra:
+                r.bad(m, FN, cons, f"the continuation is skipped under `{extra[0][0]}`: a chain M(a) < M(b) < M(c) whose middle method is "
+                      f"not called by any update block no longer orders the blocks calling a and c", pushes[0].lineno)
+            else:
+                r.ok(m, FN, cons)
+        # orientation of the added constraints
+        adds = [c for c in ast.walk(lp) if isinstance(c, ast.Call) and norm(c.func) == 'top._dag.all_constraints.add']
+        if len(adds) != 2:
+            r.bad(m, FN, f"{d}: constraints added", f"expected the block-neighbour and the method-neighbour constraint, found {len(adds)}", lp.lineno)
+        for c in adds:
+            a, b = [norm(e) for e in c.args[0].elts]
+            ok = (b == 'blk' and a in ('v', 'vb')) if d == 'pred' else (a == 'blk' and b in ('v', 'vb'))
+            gs = [norm(g.test) for g in guards_of(c) if g.kind == 'if' and any(x is g.node for x in ast.walk(lp))]
+            ok = ok and any(t in (f"{a} != {b}", f"{b} != {a}") for t in gs)
+            (r.ok if ok else r.bad)(m, FN, f"{d}: all_constraints.add(({a}, {b}))",
+                                    *([] if ok else [f"a constraint found through a {'predecessor' if d == 'pred' else 'successor'} method must be "
+                                                     f"{'(other, blk)' if d == 'pred' else '(blk, other)'} and exclude self pairs", c.lineno]))
+    r.require_floor(8)
+    return r
+
+
+RULES = [rule_visitor, rule_funcfold, rule_overlap, rule_pairing, rule_netblk, rule_kahn, rule_greenlet, rule_novar_cycle, rule_cache_scope,
+         rule_methods]
 
 
 def _m(name, file, old, new, rule=None, count=1):
@@ -967,6 +1019,9 @@ def _m(name, file, old, new, rule=None, count=1):
 
 
 MUTANTS = [
+    _m('methods-continuation-guarded', GENDAG, "              if (v, -1) not in visited:\n                visited.add( (v, -1) )\n                Q.append( (v, -1) )", "              if v in method_blks and (v, -1) not in visited:\n                visited.add( (v, -1) )\n                Q.append( (v, -1) )", 'R-C02-methods'),
+    _m('methods-succ-orientation', GENDAG, "                    top._dag.all_constraints.add( (blk, v) )", "                    top._dag.all_constraints.add( (v, blk) )", 'R-C02-methods'),
+    _m('methods-wrong-direction', GENDAG, "        if w >= 0:\n          for v in succ[u]:", "        if w <= 0:\n          for v in succ[u]:", 'R-C02-methods'),
     _m('D15-cache-inherited', L2, "    if '_name_info' in cls.__dict__:\n      name_info = cls._name_info\n      name_rd   = cls._name_rd\n      name_wr   = cls._name_wr\n      name_fc   = cls._name_fc\n    else:\n",
        "    try:\n      name_info = cls._name_info\n      name_rd   = cls._name_rd\n      name_wr   = cls._name_wr\n      name_fc   = cls._name_fc\n    except Exception:\n", 'R-C02-cache-scope'),
     _m('cache-hasattr', L2, "    if '_name_info' in cls.__dict__:", "    if hasattr( cls, '_name_info' ):", 'R-C02-cache-scope'),
